@@ -202,6 +202,32 @@ theorem minute_no_check_after_error (fuel : Nat) (e : Engine M) (sym : Nat) (rea
   unfold simulateMinute
   simp [h0]
 
+/-- the state after the per-minute matching of a chunk (untouched when no order lies inside the chunk's range) -/
+def chunkMatched (fuel : Nat) (e : Engine M) (sym : Nat) (cs : List Candle) (real : Candle) : Engine M :=
+  if (executingOrders e sym real).length > 0 then
+    simulateChunk.perMinute u fuel sym real cs none e
+      (if (executingOrders e sym real).length > 1 then sortExecutionOrders e (executingOrders e sym real) cs
+       else executingOrders e sym real)
+  else e
+
+/-- FAST SIMULATOR: the check of a chunk runs ONCE, after the matching of all its minutes, on the state in which the
+    whole chunk is stored and the clock stands at the end of the chunk — and it is given the AGGREGATE candle of the
+    chunk (so a liquidation price touched by any minute of the chunk acts at the chunk's end) -/
+theorem chunk_check_once_with_aggregate (fuel : Nat) (e : Engine M) (sym : Nat) (cs : List Candle) (real l : Candle)
+    (short' : List Candle) (h0 : e.err = none) (hg : Store.generate 0 cs = .ok real)
+    (h1 : (chunkMatched u fuel e sym cs real).err = none)
+    (hadd : Store.addMultiple1m (storeOf (chunkMatched u fuel e sym cs real) sym).short cs = .ok short')
+    (hl : cs.getLast? = some l) :
+    simulateChunk u fuel e sym cs =
+      setCurrentPrice (checkLiquidation u
+        { chunkMatched u fuel e sym cs real with
+            stores := Acc.upd (chunkMatched u fuel e sym cs real).stores sym (fun s => { s with short := short' }),
+            time := real.ts + 60000 * cs.length } sym real) sym l.c := by
+  unfold simulateChunk
+  simp only [h0, Option.isSome_none, Bool.false_eq_true, if_false, hg]
+  unfold chunkMatched at h1 hadd ⊢
+  simp only [h1, Option.isSome_none, Bool.false_eq_true, if_false, hadd, hl]
+
 end trigger
 
 
